@@ -8,6 +8,7 @@ mod ev;
 mod layout;
 mod s_events;
 mod s_frames;
+mod s_packets;
 
 use std::io::{BufRead, Write};
 use wire::*;
@@ -40,6 +41,8 @@ fn main() {
                 "USE" | "CAE" => s_frames::gen_frames(&mut r, thorough, &mut cx),
                 "USD" => s_frames::gen_usd(&mut r, thorough, &mut cx),
                 "CAD" => s_frames::gen_cad(&mut r, thorough, &mut cx),
+                "FRG" | "REA" => s_packets::gen_packets(&mut r, thorough, &mut cx),
+                "BLD" => s_packets::gen_bld(&mut r, thorough, &mut cx),
                 s => { eprintln!("unknown stream {}", s); std::process::exit(2); }
             }
         }
@@ -52,6 +55,9 @@ fn main() {
                 "USD" => s_frames::exec_usd,
                 "CAE" => s_frames::exec_cae,
                 "CAD" => s_frames::exec_cad,
+                "FRG" => s_packets::exec_frg,
+                "REA" => s_packets::exec_rea,
+                "BLD" => s_packets::exec_bld,
                 s => { eprintln!("unknown stream {}", s); std::process::exit(2); }
             };
             let stdin = std::io::stdin();
